@@ -171,6 +171,9 @@ func (g *gen) genOps(depth, n int) ([]progs.Op, []func(*zerolog.Event)) {
 	var ops []progs.Op
 	var fs []func(*zerolog.Event)
 	k := 1 + g.r.Intn(n)
+	if depth < 3 && g.r.Chance(15) {
+		k = 0 // an empty Dict / object / Func body
+	}
 	for i := 0; i < k; i++ {
 		c := g.r.Intn(20)
 		if depth <= 0 && c >= 12 && c < 18 {
@@ -196,7 +199,7 @@ func (g *gen) genOps(depth, n int) ([]progs.Op, []func(*zerolog.Event)) {
 		case c < 16: // Array
 			var aops []progs.Op
 			var afs []func(*zerolog.Array)
-			for j := g.r.Intn(4); j >= 0; j-- {
+			for j := g.r.Intn(5) - 1; j >= 0; j-- { // may be empty: an Arr() with no element
 				switch g.r.Intn(5) {
 				case 0:
 					sub, sfs := g.genOps(depth-1, 2)
